@@ -308,14 +308,32 @@ func vfC12Run(run *vfkit.Run, st *vfC12Stream, cs *vfC12Case) {
 			}
 		}
 	}
-	got := map[string]int{}
-	obs.mu.Lock()
-	for i, id := range obs.handled {
-		if obs.kinds[i] == "message" || obs.kinds[i] == "presence" || obs.kinds[i] == "iq" {
-			got[id]++
+	routedNow := func() map[string]int {
+		g := map[string]int{}
+		obs.mu.Lock()
+		for i, id := range obs.handled {
+			if obs.kinds[i] == "message" || obs.kinds[i] == "presence" || obs.kinds[i] == "iq" {
+				g[id]++
+			}
 		}
+		obs.mu.Unlock()
+		return g
 	}
-	obs.mu.Unlock()
+	// A routing goroutine that was created but has not run yet shows no frame with this client's pointers in the
+	// dump, so "no goroutine left" can be declared a moment too early on a loaded machine: give every stanza that
+	// must be routed a bounded time to arrive at its handler before judging (a dropped one never arrives).
+	if cs.How == "fin" {
+		vfWaitUntil(10*time.Second, func() bool {
+			g := routedNow()
+			for _, id := range want {
+				if g[id] == 0 {
+					return false
+				}
+			}
+			return true
+		})
+	}
+	got := routedNow()
 	wantSet := map[string]bool{}
 	for _, id := range want {
 		wantSet[id] = true
